@@ -17,6 +17,25 @@ CHECKS = {
          "Declined results are not constrained by C11 itself (their contract is checked for C01/C06).",
     technique="MIR symbolic execution -> SMT (LIA, per-class exhaustive), counterexample replay",
     engine="mir2smt"),
+ "C17": dict(
+    category="other",
+    text="Kani/CBMC proof harnesses over the compiled crate: each float field helper (subnormal test, exponent, "
+         "mantissa, raw-bit round trip, field packing, b / b+h) is compared with the IEEE-754 encoding for every bit "
+         "pattern - the whole 2^64 (f64) / 2^32 (f32) domain is one symbolic input, so the SAT verdict is exhaustive.",
+    design_ref="DESIGN.md sections 3 (E2), 6 (C17)",
+    note="Trusted: Kani 0.68 codegen, CBMC 6.11, CaDiCaL. One harness per concrete instantiation (f32, f64).",
+    technique="Kani bounded model checking (no loops: complete), vacuity witnesses via kani::cover",
+    engine="kani"),
+ "C18": dict(
+    category="other",
+    text="Kani/CBMC proof harnesses: round (nearest-even and truncating callbacks as used at the call sites) packed "
+         "through extended_to_float equals a textbook oracle for every significand in [2^63,2^64) and every biased "
+         "exponent in [-63,2100] (f64) / [-63,320] (f32); mask helpers for all widths 0..=64.",
+    design_ref="DESIGN.md sections 3 (E2), 6 (C18)",
+    note="Trusted: Kani 0.68 codegen, CBMC 6.11, CaDiCaL; the oracle (20 lines, in the harness). Counterexamples are "
+         "replayed natively with Kani's concrete playback before a VIOLATION is printed.",
+    technique="Kani bounded model checking over the full stated domain, concrete-playback replay",
+    engine="kani"),
 }
 
 ALL = ["C%02d" % i for i in range(1, 20)]
@@ -56,6 +75,8 @@ def main():
             {"name": "mir2smt", "path": "/verif/mir2smt", "serves_properties": sorted(CHECKS),
              "kind_free_text": "symbolic execution of rustc MIR (regenerated from /repo on every run) into SMT-LIB "
                                "(integer encoding for proofs, bit-vector encoding as fallback), z3 5.1.0 / cvc5 1.0.3 / z3 4.8.12 portfolio"},
+            {"name": "kani", "path": "/verif/kani", "serves_properties": sorted(k for k, v in CHECKS.items() if v["engine"] == "kani"),
+             "kind_free_text": "Kani 0.68 / CBMC 6.11 proof harnesses in external crates with a path dependency on a scratch copy of /repo"},
             {"name": "runner", "path": "/verif/runner", "serves_properties": sorted(CHECKS),
              "kind_free_text": "replay of solver counterexamples and translator validation on the compiled crate"},
         ],
